@@ -794,14 +794,7 @@ fn exec_inner(t: &[&str]) -> Option<Out> {
                                             break;
                                         }
                                     }
-                                    // open known finding, narrow class: the RRSIG's period is exactly 2^31 s (inception
-                                    // vs expiration undefined in serial arithmetic); a fresh validation accepts it while
-                                    // both comparisons with the clock are defined, the cached verdict is then served up to
-                                    // the expiration although `inception <= now` has become undefined
-                                    if !why.is_empty() && s.exp.wrapping_sub(s.inc) == 0x8000_0000 && in_window(fi.validated_at, &s) && serial_le(now, s.exp) {
-                                        stats.push("h.deviation.rrsig-period-2^31-served-from-cache".into());
-                                        fails.push((format!("Secure from the validation cache: {} (RRSIG period of exactly 2^31 s)", why.join("; ")), "rrsig-period-2^31-served-from-cache".into()));
-                                    } else if !why.is_empty() {
+                                    if !why.is_empty() {
                                         stats.push("h.deviation.validation-cache-outlives-signature".into());
                                         fails.push((format!("Secure from the validation cache: {} (regression of /repo 411522f: the cache must not outlive the signature)", why.join("; ")), String::new()));
                                     }
